@@ -443,12 +443,12 @@ def gen_cases(tier, seed):
         # depth 4: the first three layers without the in-order-with-index variants (they are covered at depth 2 and 3)
         adds4 = [o for o in adds if not (o[0] == 'ins' and o[3] and o[2] is not None)]
         total = len(adds4) ** 3 * len(ops3)
-        if total <= 400000:
+        if total <= 150000:
             for h in itertools.product(adds4, adds4, adds4, ops3):
                 cases.append(h)
         else:
             # (the full product has millions of histories: a seeded sample of it, the first three layers exhaustive at depth 3)
-            for _ in range(400000):
+            for _ in range(150000):
                 cases.append((rnd.choice(adds4), rnd.choice(adds4), rnd.choice(adds4), rnd.choice(ops3)))
         n_exh = len(cases)
     big_rules = RULES + ['c2', 'n:2:1', 'n:2:2', 'n:1:2', 'n:0:1', 's:1', 's:2', 's:0']
